@@ -47,12 +47,15 @@ CHECKS = {
  "C07": dict(
   text="Coq theorems, Closed under the global context, for every state: on v3.1.1 a QoS 2 PUBLISH whose id is in the handled set is not notified "
        "and stays handled; on both versions a PUBREL removes the id from the handled set so the next PUBLISH is a new message; automatically "
-       "generated acknowledgements notify nothing and leave the set alone. PARTIAL (C07_partial): exactly-once over all histories (incl. v5.0, "
-       "reconnects, export/restore, error PUBREC, new session) is decided by the monitor mon_c07 (ghost set of notified-and-unreleased ids "
-       "from the events) and the correspondence, not yet by a theorem.",
+       "generated acknowledgements notify nothing and leave the set alone; and over ALL histories of API calls of any length (both versions, "
+       "persistent closes and session-keeping reconnects included): a handled id stays handled through every call that is not a release point "
+       "(PUBREL for it, error PUBREC sent for it, clean-start CONNECT, CONNACK without session, non-persistent close, restore), so a v3.1.1 "
+       "retransmission after any such history is not notified (C07_handled_until_released, by a walker over every function of the model). "
+       "PARTIAL (C07_partial): 'a first PUBLISH is notified' over histories and the v5.0 duplicate path are decided by the monitor mon_c07 "
+       "(ghost set of notified-and-unreleased ids from the events) and the correspondence.",
   ref="DESIGN.md §3 C07",
   note=CONN_NOTE,
-  technique="Coq per-step proofs + exactly-once ghost monitor + differential correspondence"),
+  technique="Coq per-step and history-invariant proofs + exactly-once ghost monitor + differential correspondence"),
  "C13": dict(
   text="Coq theorems, Closed under the global context, for every state: a received PUBLISH with an empty topic is delivered with exactly the "
        "topic bound to its alias on this connection, or rejected as Topic Alias invalid; both alias tables are dropped by notify_closed; "
